@@ -63,6 +63,9 @@ func zeroOf(lt ltype) string {
 	case tStruct:
 		return "(default : " + lt.sname + ")"
 	case tArr:
+		if lt.alen > 0 {
+			return fmt.Sprintf("(Array.replicate %d %s)", lt.alen, zeroOf(lt.elems[0])) // `var a [N]T`
+		}
 		return "#[]"
 	}
 	return zero(lt)
@@ -190,6 +193,9 @@ func (t *tr) pcs(e ast.Expr, cond bool, hoist *[]*ast.CallExpr) []string {
 		}
 		return t.pcs(e.X, cond, hoist)
 	case *ast.IndexExpr:
+		if c, ok := t.absIndexGuard(e); ok {
+			return append(t.pcs(e.Index, cond, hoist), c...)
+		}
 		if !t.isArr(e.X) {
 			return nil
 		}
@@ -199,6 +205,9 @@ func (t *tr) pcs(e ast.Expr, cond bool, hoist *[]*ast.CallExpr) []string {
 	case *ast.SliceExpr:
 		if t.reuseSlice(e) {
 			return nil // `s[:0]`, `s[len(s):len(s):cap(s)]` never panic
+		}
+		if t.fullSlice(e) {
+			return t.pcs(e.X, cond, hoist)
 		}
 		out := append(t.pcs(e.X, cond, hoist), t.pcs(e.Low, cond, hoist)...)
 		if e.High != nil || e.Max != nil || e.Low == nil {
@@ -244,7 +253,7 @@ func (t *tr) pcs(e ast.Expr, cond bool, hoist *[]*ast.CallExpr) []string {
 				out = append(out, t.pcs(sel.X, cond, hoist)...)
 			}
 		}
-		if t.optCallee(e) != nil {
+		if t.isOptCall(e) {
 			if cond {
 				t.fail(e, "call of a function that may panic under the right operand of && / ||")
 				return nil
@@ -547,7 +556,7 @@ func (t *tr) needsNew(n ast.Node) bool {
 				need = true
 			}
 		case *ast.CallExpr:
-			if t.optCallee(n) != nil {
+			if t.isOptCall(n) {
 				need = true
 			}
 			if id, ok := n.Fun.(*ast.Ident); ok {
@@ -589,6 +598,14 @@ func (t *tr) loopState(from, to token.Pos, nodes ...ast.Node) []stateVar {
 			}
 		case *ast.IncDecStmt:
 			targets = []ast.Expr{n.X}
+		}
+		if es, isES := n.(*ast.ExprStmt); isES {
+			// a call that assigns the elements of a slice argument (eval.go)
+			if _, v, ok := t.outCallTarget(es); ok {
+				found[t.nm(v)] = t.typeOf(v)
+				poss[t.nm(v)] = t.p.info.Uses[v].Pos()
+				return true
+			}
 		}
 		if st, isStmt := n.(ast.Stmt); isStmt && (t.spec.copies != "" || len(t.spec.mut) > 0) {
 			// declared copies and calls of functions that assign through a parameter (mut.go)
@@ -771,7 +788,7 @@ func (t *tr) shapeOf(s ast.Stmt) (sh loopShape, ok bool) {
 				}
 			}
 		}
-		if s.Cond == nil {
+		if s.Cond == nil && !(s.Init == nil && s.Post == nil && ownBreak(s.Body)) {
 			t.fail(s, "loop without condition in this form")
 			return sh, false
 		}
@@ -1070,10 +1087,15 @@ func (t *tr) newLoop(s ast.Stmt, cont func() string) string {
 		}
 		ctx.cnt = postK
 		t.loops = append(t.loops, ctx)
-		g := t.guard(sh.cond)
-		c := t.expr(sh.cond)
-		inner := t.stmts(sh.body.List, postK)
-		body = g + "if " + c + " then\n" + indent(inner) + "\nelse\n" + indent(done(stTuple(state)))
+		if sh.cond == nil {
+			// `for { .. break .. }`: left only through break / return
+			body = t.stmts(sh.body.List, postK)
+		} else {
+			g := t.guard(sh.cond)
+			c := t.expr(sh.cond)
+			inner := t.stmts(sh.body.List, postK)
+			body = g + "if " + c + " then\n" + indent(inner) + "\nelse\n" + indent(done(stTuple(state)))
+		}
 	} else {
 		ctx.cnt = rec
 		t.loops = append(t.loops, ctx)
@@ -1311,6 +1333,12 @@ func (t *tr) assignElem(lhs ast.Expr, tok token.Token, rhs ast.Expr, pos token.P
 //  3. a mutated slice variable is never copied (`y := x`, `y := x[a:]`, `z[i] = x`) nor passed to a function;
 //  4. a mutated slice parameter has an element type no other slice parameter / view / global of the function has.
 func (t *tr) checkAliasing(fd *ast.FuncDecl) {
+	sig, _ := t.p.info.Defs[fd.Name].Type().(*types.Signature)
+	t.checkAliasingBody(fd.Body, sig, fd.Type)
+}
+
+// checkAliasingBody: the check for one function body (a declared function or a local closure)
+func (t *tr) checkAliasingBody(fdBody *ast.BlockStmt, sig *types.Signature, fdType *ast.FuncType) {
 	info := t.p.info
 	mutated := map[types.Object]ast.Node{}
 	elemAssigned := map[types.Object]bool{}
@@ -1333,10 +1361,19 @@ func (t *tr) checkAliasing(fd *ast.FuncDecl) {
 		return ce, isB
 	}
 	okAppend := map[*ast.CallExpr]bool{}
-	ast.Inspect(fd.Body, func(n ast.Node) bool {
+	outArg := map[ast.Expr]bool{} // the argument through which an out-call assigns
+	ast.Inspect(fdBody, func(n ast.Node) bool {
 		switch n := n.(type) {
 		case *ast.FuncLit:
 			return false
+		case *ast.ExprStmt:
+			if arg, v, ok := t.outCallTarget(n); ok {
+				if o := info.Uses[v]; o != nil {
+					mutated[o] = n
+					elemAssigned[o] = true
+					outArg[arg] = true
+				}
+			}
 		case *ast.AssignStmt:
 			for _, l := range n.Lhs {
 				if ix, ok := l.(*ast.IndexExpr); ok && t.isArr(ix.X) {
@@ -1375,7 +1412,7 @@ func (t *tr) checkAliasing(fd *ast.FuncDecl) {
 		return true
 	})
 	// 1.
-	ast.Inspect(fd.Body, func(n ast.Node) bool {
+	ast.Inspect(fdBody, func(n ast.Node) bool {
 		if ce, ok := n.(*ast.CallExpr); ok {
 			if _, isApp := isAppend(ce); isApp && !okAppend[ce] {
 				t.fail(ce, "append outside `x = append(x, ...)` / `return append(x, ...)` (the result could share x's backing array)")
@@ -1389,6 +1426,11 @@ func (t *tr) checkAliasing(fd *ast.FuncDecl) {
 	fresh := func(e ast.Expr, self types.Object) bool {
 		if tv := info.Types[e]; tv.IsNil() {
 			return true
+		}
+		if _, isArray := self.Type().Underlying().(*types.Array); isArray {
+			if _, isSlice := e.(*ast.SliceExpr); !isSlice {
+				return true // `[N]T` is a value: assignment copies the elements
+			}
 		}
 		switch e := e.(type) {
 		case *ast.CompositeLit:
@@ -1408,7 +1450,7 @@ func (t *tr) checkAliasing(fd *ast.FuncDecl) {
 		return false
 	}
 	// 2. and 3.
-	ast.Inspect(fd.Body, func(n ast.Node) bool {
+	ast.Inspect(fdBody, func(n ast.Node) bool {
 		switch n := n.(type) {
 		case *ast.FuncLit:
 			return false
@@ -1449,7 +1491,14 @@ func (t *tr) checkAliasing(fd *ast.FuncDecl) {
 				}
 			}
 			for _, a := range n.Args {
-				if o := objOf(a); o != nil && mutated[o] != nil {
+				if outArg[a] {
+					continue
+				}
+				root := a
+				if se, ok := root.(*ast.SliceExpr); ok {
+					root = se.X
+				}
+				if o := objOf(root); o != nil && mutated[o] != nil {
 					t.fail(n, "the mutated slice %s is passed to a function", o.Name())
 				}
 			}
@@ -1465,7 +1514,10 @@ func (t *tr) checkAliasing(fd *ast.FuncDecl) {
 		}
 		return nil
 	}
-	sig := info.Defs[fd.Name].Type().(*types.Signature)
+	if sig == nil {
+		t.fail(fdType, "signature")
+		return
+	}
 	for o := range mutated {
 		v, ok := o.(*types.Var)
 		if !ok {
@@ -1492,18 +1544,18 @@ func (t *tr) checkAliasing(fd *ast.FuncDecl) {
 		for _, a := range t.abs {
 			for _, vi := range a.views {
 				if vi.ty.c == tArr && vi.ty.alen < 0 && me != nil && t.ltypeOf(me).lean() == vi.ty.elems[0].lean() {
-					t.fail(fd, "the mutated slice parameter %s could share its backing array with the view %s", v.Name(), strings.Join(vi.path, "."))
+					t.fail(fdType, "the mutated slice parameter %s could share its backing array with the view %s", v.Name(), strings.Join(vi.path, "."))
 				}
 			}
 		}
 		for name, lt := range t.globals {
 			if lt.c == tArr && lt.alen < 0 && me != nil && t.ltypeOf(me).lean() == lt.elems[0].lean() {
-				t.fail(fd, "the mutated slice parameter %s could share its backing array with the global %s", v.Name(), name)
+				t.fail(fdType, "the mutated slice parameter %s could share its backing array with the global %s", v.Name(), name)
 			}
 		}
 		for _, e := range sliceTypes {
 			if me != nil && types.Identical(e, me) {
-				t.fail(fd, "the mutated slice parameter %s could share its backing array with another slice parameter", v.Name())
+				t.fail(fdType, "the mutated slice parameter %s could share its backing array with another slice parameter", v.Name())
 			}
 		}
 	}
